@@ -113,7 +113,7 @@ pub fn access<T>(kind: Access, offset: usize, address: usize, shadow: &mut [u8])
                 if kind == Access::Read {
                     bytes.iter_mut().for_each(|b| *b = MOVED_OUT);
                 }
-            } else if bytes.iter().any(|b| *b != t && *b != UNOWNED) {
+            } else if bytes.iter().any(|b| *b != t && *b != UNOWNED && *b != MOVED_OUT) {
                 violation(format!(
                     "{:?} of {} at offset {} over bytes that belong to another value (shadow {:?})",
                     kind,
